@@ -3,7 +3,7 @@ CONSTANTS Ctx <- McCtx
  Init0 <- McInit
  Gas <- McGas
  Devs = {}
- Kinds = {"issue", "axfer", "freeze", "unfreeze"}
+ Kinds = {"issue", "repl", "axfer", "freeze", "unfreeze"}
  From = {}
  XTo = {}
  XAmt = {}
@@ -11,8 +11,8 @@ CONSTANTS Ctx <- McCtx
  Voters = {}
  Cands = {}
  RegAmt = {}
- AFrom = {"a1", "a2", "a4"}
- ATo = {"a1", "a2", "Z"}
+ AFrom = {"a1", "a4"}
+ ATo = {"a1", "a2", "a3", "Z"}
  AAmt <- McAAmtT
  IAmt <- McIAmt
  BoxFrom = {}
